@@ -444,7 +444,7 @@ class MinFlowDecomp(pathmodel.AbstractPathModelDAG): # Note that we inherit from
             utils.logger.info(f"{__name__}: found a min gen set solution with {min_gen_set_lowerbound} elements ({self._generating_set})")
         else:
             utils.logger.info(f"{__name__}: did NOT find a min gen set solution")
-            exit(0)
+            # No lower bound from the min gen set problem (as in MinFlowDecompCycles)
         
         self.solve_statistics["min_gen_set_solve_time"] = time.perf_counter() - min_gen_set_start_time
         
